@@ -304,4 +304,270 @@ Section SweepComplete.
     rewrite E. cbn [bind]. apply IH; try assumption; try lia.
     intro Lt. pose proof (site_sorted t Lz HL HS sc (sc + 1) ltac:(lia) ltac:(fold NS; lia)). specialize (NX ltac:(lia)). lia.
   Qed.
+
+  (* ---- one iteration of the main loop ---- *)
+  Definition ord (j k x : Z) : Prop :=
+    (forall a, 0 <= a < j -> elz (zat II a) < x) /\ (forall a, j <= a < ne -> x <= elz (zat II a)) /\
+    (forall a, 0 <= a < k -> erz (zat OO a) < x) /\ (forall a, k <= a < ne -> x <= erz (zat OO a)).
+
+  Definition hit (j k x : Z) : Prop :=
+    (j < ne /\ elz (zat II j) = x) \/ (k < ne /\ erz (zat OO k) = x).
+
+  Definition cinv (s : sweep_state) (x : Z) : Prop :=
+    sw_left s = Fin x /\
+    SweepSound.inv t II OO Lz (sw_j s) (sw_k s) x (sw_parent s) (sw_used s) /\
+    SweepSound.minv t II (sw_j s) x x (sw_site s) (sw_mut s) /\
+    ord (sw_j s) (sw_k s) x /\
+    (x = 0 \/ hit (sw_j s) (sw_k s) x \/ (x = Lz /\ sw_j s = ne)) /\
+    0 <= sw_trees s /\
+    sw_trees s + (ne - sw_j s) + (ne - sw_k s) + (if x =? 0 then 1 else 0) <= 2 * ne + 1.
+
+  Lemma sweep_step_complete s x : cinv s x -> (sw_j s <? ne) || flt (sw_left s) (seqlen t) = true ->
+    exists s' x', sweep_step t II OO s = Ok s' /\ cinv s' x' /\ x < x' /\
+      (ne - sw_j s') + (ne - sw_k s') + (if x =? 0 then 0 else 1) <= (ne - sw_j s) + (ne - sw_k s).
+  Proof.
+    intros [EX [INV [MINV [[J1 [J2 [K1 K2]]] [HIT [T0 TB]]]]]] COND.
+    assert (XL : x < Lz).
+    { rewrite EX, HL, flt_fin in COND. apply orb_true_iff in COND as [C|C]; b2z; [|assumption].
+      destruct INV. specialize (J2 (sw_j s) ltac:(lia)).
+      destruct (efin _ (zI_range (sw_j s) ltac:(lia))) as [_ [_ [A [B _]]]]. lia. }
+    assert (TBD : sw_trees s <> TSK_MAX_ID).
+    { destruct INV. unfold ne, TSK_MAX_ID in *. destruct (x =? 0); lia. }
+    assert (SI : sinv t II OO Lz s) by (exists x; auto).
+    unfold sweep_step. fold ne. rewrite EX.
+    destruct (out_loop_complete (sw_j s) x (S (Z.to_nat (ne - sw_k s))) (sw_k s) (sw_parent s) (sw_used s))
+      as [k1 [par1 [used1 [EO [K1' K2']]]]]; try assumption; try lia.
+    { intros a Ra. specialize (K1 a Ra). lia. }
+    assert (IO := out_loop_inv t II OO Lz HL HE HI _ _ _ _ _ _ _ _ _ INV EO). destruct IO as [INV1 [KK _]].
+    rewrite EO. cbn [bind].
+    destruct (in_loop_complete k1 x (sw_site s) (sw_mut s) (S (Z.to_nat (ne - sw_j s))) (sw_j s) par1 used1)
+      as [j1 [par2 [used2 [EI [J1' J2']]]]]; try assumption; try lia.
+    { intros a Ra. specialize (J1 a Ra). lia. }
+    assert (II' := in_loop_inv t II OO Lz HL HE HMR HI _ _ _ _ _ _ _ _ _ _ _ INV1 MINV EI).
+    destruct II' as [INV2 [MINV2 [JJ _]]].
+    rewrite EI. cbn [bind]. rewrite HL.
+    assert (Rj1 : 0 <= j1 <= ne) by (destruct INV2; lia). assert (Rk1 : 0 <= k1 <= ne) by (destruct INV2; lia).
+    pose proof (wf_edge_right t W).
+    (* tree_right *)
+    set (a := if j1 <? ne then Z.min Lz (elz (zat II j1)) else Lz).
+    assert (EA : (if j1 <? ne then do e <- aget II j1; do l <- aget (edge_left t) e; Ok (fmin (Fin Lz) l)
+                  else Ok (Fin Lz)) = Ok (Fin a)).
+    { unfold a. destruct (j1 <? ne) eqn:C; [|reflexivity]. b2z.
+      rewrite aget_zat by (rewrite zlII; lia). cbn [bind].
+      destruct (efin _ (zI_range j1 ltac:(lia))) as [E1 _].
+      rewrite aget_fat by (pose proof (zI_range j1 ltac:(lia)); rng). cbn [bind]. rewrite E1, fmin_fin. reflexivity. }
+    rewrite EA. cbn [bind].
+    set (b := if k1 <? ne then Z.min a (erz (zat OO k1)) else a).
+    assert (EB : (if k1 <? ne then do e <- aget OO k1; do r <- aget (edge_right t) e; Ok (fmin (Fin a) r)
+                  else Ok (Fin a)) = Ok (Fin b)).
+    { unfold b. destruct (k1 <? ne) eqn:C; [|reflexivity]. b2z.
+      rewrite aget_zat by (rewrite zlOO; lia). cbn [bind].
+      destruct (efin _ (zO_range k1 ltac:(lia))) as [_ [E1 _]].
+      rewrite aget_fat by (pose proof (zO_range k1 ltac:(lia)); rng). cbn [bind]. rewrite E1, fmin_fin. reflexivity. }
+    rewrite EB. cbn [bind].
+    assert (XB : x < b /\ b <= Lz /\ (forall a0, j1 <= a0 < ne -> b <= elz (zat II a0)) /\
+                 (forall a0, k1 <= a0 < ne -> b <= erz (zat OO a0)) /\
+                 ((j1 < ne /\ elz (zat II j1) = b) \/ (k1 < ne /\ erz (zat OO k1) = b) \/ (b = Lz /\ j1 = ne))).
+    { unfold b, a. destruct (j1 <? ne) eqn:C1, (k1 <? ne) eqn:C2; b2z.
+      - pose proof (J2' j1 ltac:(lia)). pose proof (K2' k1 ltac:(lia)).
+        split; [lia|]. split; [lia|]. split; [|split].
+        + intros a0 R0. pose proof (I_sorted j1 a0 ltac:(lia) ltac:(lia)). lia.
+        + intros a0 R0. pose proof (O_sorted k1 a0 ltac:(lia) ltac:(lia)). lia.
+        + destruct (efin _ (zI_range j1 ltac:(lia))) as [_ [_ [Q1 [Q2 _]]]]. lia.
+      - pose proof (J2' j1 ltac:(lia)).
+        split; [lia|]. split; [lia|]. split; [|split].
+        + intros a0 R0. pose proof (I_sorted j1 a0 ltac:(lia) ltac:(lia)). lia.
+        + intros a0 R0. lia.
+        + destruct (efin _ (zI_range j1 ltac:(lia))) as [_ [_ [Q1 [Q2 _]]]]. lia.
+      - pose proof (K2' k1 ltac:(lia)).
+        split; [lia|]. split; [lia|]. split; [|split].
+        + intros a0 R0. lia.
+        + intros a0 R0. pose proof (O_sorted k1 a0 ltac:(lia) ltac:(lia)). lia.
+        + destruct (Z.min_spec Lz (erz (zat OO k1))) as [[_ Q]|[_ Q]]; rewrite Q; [right; right|right; left]; lia.
+      - split; [lia|]. split; [lia|]. split; [intros; lia|]. split; [intros; lia|]. right; right. lia. }
+    destruct XB as [XB [BL [JB [KB HB']]]].
+    destruct MINV2 as [Msc Mmc Mpos Mnext Mcons Mnextm MG].
+    destruct (site_loop_complete j1 k1 x b par2 used2 (S (Z.to_nat (num_sites t - sw_site s))) (sw_site s) (sw_mut s))
+      as [sc1 [mc1 ES]]; try assumption; try (fold NS; lia).
+    rewrite ES. cbn [bind].
+    rewrite err_if_false by (rewrite fle_fin; apply Z.leb_gt; lia).
+    rewrite err_if_false by (apply Z.eqb_neq; exact TBD).
+    eexists _, b. split; [reflexivity|].
+    (* the new state *)
+    assert (STEP : sweep_step t II OO s = Ok (mkSW j1 k1 (Fin b) par2 used2 sc1 mc1 (sw_trees s + 1))).
+    { unfold sweep_step. fold ne. rewrite EX, EO. cbn [bind]. rewrite EI. cbn [bind]. rewrite HL, EA. cbn [bind].
+      rewrite EB. cbn [bind]. rewrite ES. cbn [bind].
+      rewrite err_if_false by (rewrite fle_fin; apply Z.leb_gt; lia).
+      rewrite err_if_false by (apply Z.eqb_neq; exact TBD). reflexivity. }
+    assert (SI' : sinv t II OO Lz (mkSW j1 k1 (Fin b) par2 used2 sc1 mc1 (sw_trees s + 1))) by (eapply sweep_step_inv; eauto using HI).
+    destruct SI' as [x' [EX' [INV' MINV']]].
+    cbn [sw_j sw_k sw_left sw_parent sw_used sw_site sw_mut sw_trees] in EX', INV', MINV'. inversion EX'; subst x'.
+    split; [|split].
+    - unfold cinv. cbn [sw_j sw_k sw_left sw_parent sw_used sw_site sw_mut sw_trees]. split; [reflexivity|]. split; [assumption|]. split; [assumption|]. split; [|split; [|split]].
+      + split; [|split; [|split]].
+        * intros a0 R0. specialize (J1' a0 R0). lia.
+        * assumption.
+        * intros a0 R0. specialize (K1' a0 R0). lia.
+        * assumption.
+      + right. unfold hit. tauto.
+      + lia.
+      + replace (b =? 0) with false by (symmetry; apply Z.eqb_neq; destruct INV; lia).
+        destruct (x =? 0) eqn:X0; [lia|]. b2z.
+        assert (PROG : j1 + k1 > sw_j s + sw_k s).
+        { destruct HIT as [HIT|[[[Q1 Q2]|[Q1 Q2]]|[Q1 Q2]]]; [lia| | |lia].
+          - destruct (Z_lt_dec (sw_j s) j1); [lia|]. specialize (J2' (sw_j s) ltac:(lia)). lia.
+          - destruct (Z_lt_dec (sw_k s) k1); [lia|]. specialize (K2' (sw_k s) ltac:(lia)). lia. }
+        lia.
+    - assumption.
+    - cbn [sw_j sw_k sw_left sw_parent sw_used sw_site sw_mut sw_trees]. destruct (x =? 0) eqn:X0; [lia|]. b2z.
+      destruct HIT as [HIT|[[[Q1 Q2]|[Q1 Q2]]|[Q1 Q2]]]; [lia| | |lia].
+      + destruct (Z_lt_dec (sw_j s) j1); [lia|]. specialize (J2' (sw_j s) ltac:(lia)). lia.
+      + destruct (Z_lt_dec (sw_k s) k1); [lia|]. specialize (K2' (sw_k s) ltac:(lia)). lia.
+  Qed.
+
+  (* ---- the main loop: the fuel 2*num_edges+2 is enough ---- *)
+  Lemma sweep_complete fuel : forall s x, cinv s x ->
+    (ne - sw_j s) + (ne - sw_k s) + (if x =? 0 then 1 else 0) <= Z.of_nat fuel ->
+    exists s' x', sweep t II OO fuel s = Ok s' /\ cinv s' x' /\
+      (sw_j s' <? ne) || flt (sw_left s') (seqlen t) = false.
+  Proof.
+    induction fuel as [|fuel IH]; intros s x CI HF.
+    - cbn [sweep]. fold ne. destruct ((sw_j s <? ne) || flt (sw_left s) (seqlen t)) eqn:C.
+      + exfalso. destruct CI as [EX [INV [_ [[_ [J2 _]] [HIT _]]]]].
+        assert (Rj : 0 <= sw_j s <= ne) by (destruct INV; lia). assert (Rk : 0 <= sw_k s <= ne) by (destruct INV; lia).
+        destruct (x =? 0) eqn:X0; [lia|]. b2z.
+        destruct HIT as [HIT|[[[Q1 Q2]|[Q1 Q2]]|[Q1 Q2]]]; try lia.
+        rewrite EX, HL, flt_fin in C. subst x. rewrite Q2 in C.
+        replace (ne <? ne) with false in C by (symmetry; apply Z.ltb_irrefl).
+        replace (Lz <? Lz) with false in C by (symmetry; apply Z.ltb_irrefl). discriminate.
+      + exists s, x. auto.
+    - cbn [sweep]. fold ne. destruct ((sw_j s <? ne) || flt (sw_left s) (seqlen t)) eqn:C.
+      + destruct (sweep_step_complete s x CI C) as [s1 [x1 [E1 [C1 [LT DEC]]]]].
+        rewrite E1. cbn [bind].
+        apply (IH s1 x1 C1).
+        replace (x1 =? 0) with false by (symmetry; apply Z.eqb_neq; destruct CI as [_ [INV _]]; destruct INV; lia).
+        destruct (x =? 0); lia.
+      + exists s, x. auto.
+  Qed.
+
+  (* ---- the trailing loop ---- *)
+  Lemma tail_complete k used :
+    tinv v t II OO k used -> (forall a, k <= a < ne -> erz (zat OO a) = Lz) ->
+    exists used', tail_loop v t OO k used = Ok used'.
+  Proof.
+    intros T0 ALL. unfold tail_loop. fold ne.
+    destruct (for_loop_complete
+      (fun k used => do e <- aget OO k; do r <- aget (edge_right t) e;
+                     check! fne r (seqlen t) else E_TABLES_BAD_INDEXES;
+                     do u <- aget used e;
+                     check! fix_f1 v && negb (u =? 1) else E_TABLES_BAD_INDEXES; aset used e (u + 1))
+      (fun k' u' => k <= k' /\ tinv v t II OO k' u') (Z.to_nat (ne - k)) k used) as [u' [E _]].
+    - split; [lia|assumption].
+    - intros i u1 Ri [Rk TI]. pose proof TI as TI0. destruct TI as [Rk' [Lu [So Fx]]]. fold ne in Rk', Lu.
+      assert (Ri' : 0 <= i < ne) by lia.
+      destruct (HI i Ri') as [_ [e [Ge Re]]]. assert (ZO := zat_aget _ _ _ Ge).
+      destruct (efin e Re) as [_ [Er [_ [RL _]]]]. pose proof (wf_edge_right t W).
+      rewrite Ge. cbn [bind]. rewrite aget_fat by rng. cbn [bind]. rewrite Er, HL.
+      assert (EL : erz e = Lz) by (rewrite <- ZO; apply ALL; lia).
+      rewrite err_if_false by (unfold fne; simpl; rewrite EL, Z.eqb_refl; reflexivity).
+      rewrite aget_zat by (rewrite Lu; exact Re). cbn [bind].
+      assert (CK : fix_f1 v && negb (zat u1 e =? 1) = false).
+      { destruct (fix_f1 v) eqn:F; [|reflexivity]. destruct (Fx eq_refl) as [Cn Us].
+        assert (C0 : cO i e = 0) by (apply cnt_pre_fresh; [apply NDO|assumption]).
+        assert (C1 : cI ne e >= 1).
+        { destruct (pos_in_I e Re) as [b [Rb Eb]].
+          assert (Q : cI ne (zat II b) >= 1) by (eapply cI_prev; [exact HI|lia|fold ne; lia]). rewrite Eb in Q. exact Q. }
+        specialize (Cn e). rewrite (Us e Re). unfold ne in C1. replace (cI (num_edges t) e + cO i e) with 1 by lia. reflexivity. }
+      rewrite err_if_false by exact CK.
+      destruct (aset_cases u1 e (zat u1 e + 1)) as [[u2 [A [RA [LA NA]]]]|[A NR]]; [|exfalso; apply NR; rewrite Lu; exact Re].
+      exists u2. split; [assumption|]. split; [lia|].
+      (* the invariant for the next entry, from the soundness lemma applied to a one-step run *)
+      assert (ONE : tail_loop v t OO i u1 = Ok u2 \/ True) by (right; exact I). clear ONE.
+      split; [fold ne; lia|]. split; [fold ne; lia|]. split.
+      + intros a Ra. destruct (Z.eq_dec a i); [|apply So; lia]. subst a. rewrite ZO.
+        destruct (efin _ (zO_range (i - 1) ltac:(lia))) as [_ [_ [_ [RL1 _]]]]. lia.
+      + intro F. destruct (Fx F) as [Cn Us]. rewrite F in CK. simpl in CK. b2z.
+        assert (CO' : forall e', cO (i + 1) e' = cO i e' + (if Z.eq_dec e e' then 1 else 0)) by (intro; apply cO_succ; assumption).
+        pose proof (Cn e). pose proof (Us e Re). pose proof (cO_nonneg OO i e).
+        split.
+        * intro e'. rewrite CO'. specialize (Cn e'). destruct (Z.eq_dec e e'); [subst; lia|lia].
+        * intros e' Re'. rewrite CO'. rewrite (nth_upd t _ _ _ _ NA) by lia.
+          destruct (Z.eq_dec e' e), (Z.eq_dec e e'); subst; try congruence; try lia.
+          rewrite (Us e' Re'). lia.
+    - exists u'. exact E.
+  Qed.
+
+  Theorem tree_complete : exists n, check_tree_integrity_with v t II OO = Ok n.
+  Proof.
+    unfold check_tree_integrity_with.
+    set (s0 := mkSW 0 0 F0 (repeat TSK_NULL (length (node_time t))) (repeat 0 (length (edge_left t))) 0 0 0).
+    assert (SI0 : sinv t II OO Lz s0) by (apply sinv_init; auto using HI).
+    destruct SI0 as [x0 [EX0 [INV0 MINV0]]]. cbn in EX0. inversion EX0; subst x0.
+    assert (C0 : cinv s0 0).
+    { unfold cinv. cbn [s0 sw_j sw_k sw_left sw_parent sw_used sw_site sw_mut sw_trees].
+      split; [reflexivity|]. split; [assumption|]. split; [assumption|]. split; [|split; [left; reflexivity|]].
+      - split; [intros; lia|]. split; [|split; [intros; lia|]].
+        + intros a Ra. destruct (efin _ (zI_range a Ra)) as [_ [_ [Q _]]]. lia.
+        + intros a Ra. destruct (efin _ (zO_range a Ra)) as [_ [_ [Q _]]]. lia.
+      - simpl (0 =? 0). pose proof ne0. lia. }
+    destruct (sweep_complete (sweep_fuel t) s0 0 C0) as [s1 [x1 [E1 [C1 EXIT]]]].
+    { cbn [s0 sw_j sw_k]. simpl (0 =? 0). unfold sweep_fuel. fold ne. pose proof ne0. lia. }
+    rewrite E1. cbn [bind].
+    destruct C1 as [EX [INV [MINV [[J1 [J2 [K1 K2]]] _]]]].
+    rewrite EX, HL, flt_fin in EXIT. apply orb_false_iff in EXIT as [X1 X2]. b2z.
+    assert (EJ : sw_j s1 = ne) by (destruct INV; lia).
+    assert (EXL : x1 = Lz) by (destruct INV; lia). subst x1.
+    destruct (tail_complete (sw_k s1) (sw_used s1)) as [u' ET].
+    - destruct INV as [Ij Ik Ix Lp Lu Cn Us Pa A1 Dj Rg oI oO sI sO]. rewrite EJ in *.
+      split; [fold ne; lia|]. split; [assumption|]. split; [assumption|]. intros _. split; assumption.
+    - intros a Ra. specialize (K2 a Ra). destruct (efin _ (zO_range a ltac:(destruct INV; lia))) as [_ [_ [_ [Q _]]]]. lia.
+    - rewrite ET. cbn [bind]. eexists. reflexivity.
+  Qed.
 End SweepComplete.
+
+(* ---- the whole gate ---- *)
+Lemma index_complete t : WF t -> IndexOK t -> check_index_integrity t = Ok tt.
+Proof.
+  intros W [I [O [EI [[PI _] [PO _]]]]]. unfold check_index_integrity. rewrite EI.
+  destruct (wf_idx t W I O EI) as [LI LO].
+  apply for_loop_unit_iff. intros j R.
+  assert (ZI : zlen I = num_edges t) by (unfold zlen, num_edges; rewrite LI; reflexivity).
+  assert (ZO : zlen O = num_edges t) by (unfold zlen, num_edges; rewrite LO; reflexivity).
+  assert (Rj : 0 <= j < num_edges t) by (unfold num_edges, zlen; lia).
+  rewrite aget_zat by lia. cbn [bind].
+  assert (R1 : 0 <= zat I j < num_edges t).
+  { apply (perm_zrange_In _ _ _ PI). unfold zat. apply nth_In. unfold zlen in ZI. lia. }
+  rewrite err_if_false by (apply range_chk; assumption).
+  rewrite aget_zat by lia. cbn [bind].
+  assert (R2 : 0 <= zat O j < num_edges t).
+  { apply (perm_zrange_In _ _ _ PO). unfold zat. apply nth_In. unfold zlen in ZO. lia. }
+  rewrite err_if_false by (apply range_chk; assumption). reflexivity.
+Qed.
+
+Theorem check_complete_lemma v t :
+  WF t -> ValidTS t -> 2 * num_edges t + 1 < TSK_MAX_ID ->
+  exists n, check_integrity v opts_trees t = Ok n.
+Proof.
+  intros W V HOV. unfold check_integrity. fold oT.
+  destruct (v_seqlen t V) as [Lz [HL HLpos]].
+  rewrite err_if_false.
+  2:{ rewrite HL. unfold F0. rewrite fle_fin. simpl. rewrite andb_false_r.
+      apply orb_false_intro'; [apply Z.leb_gt; lia|reflexivity]. }
+  rewrite (offsets_complete t W V). cbn [bind].
+  rewrite (nodes_complete t W V). cbn [bind].
+  rewrite (edges_complete t W V). cbn [bind].
+  rewrite (sites_complete t V). cbn [bind].
+  rewrite (muts_complete t W V). cbn [bind].
+  rewrite (migs_complete t W V). cbn [bind].
+  rewrite (inds_complete t W V). cbn [bind].
+  cbn [oT imply_trees opts_trees o_trees o_indexes].
+  rewrite (index_complete t W (v_index t V)). cbn [bind].
+  destruct (v_index t V) as [I [O [EI [PI PO]]]].
+  unfold check_tree_integrity. rewrite EI.
+  destruct (wf_idx t W I O EI) as [LI LO].
+  apply (tree_complete v t I O Lz W HL HLpos (v_nodes t V) (v_edge_rows t V) (v_sites t V)
+           (v_mut_rows t V) (v_mut_order t V) (v_disjoint t V) (v_mut_below t V) PI PO LI LO HOV).
+Qed.
+
+Example complete_nonvacuous : exists n, check_integrity faithful opts_trees ex_valid = Ok n.
+Proof. exists 1. vm_compute. reflexivity. Qed.
